@@ -169,10 +169,28 @@ pub fn install_panic_hook() {
         } else {
             "<non-string panic payload>".to_string()
         };
-        let loc = match info.location() {
+        let mut loc = match info.location() {
             Some(l) => format!("{}:{}", l.file(), l.line()),
             None => "<unknown>".to_string(),
         };
+        if !loc.contains("/repo/") && !loc.contains("/verif/") && !loc.starts_with("src/") {
+            // the panic was raised inside std/core or a dependency: attribute it to the first
+            // frame inside the repository (what a sanitizer report calls the first in-repo frame)
+            let bt = std::backtrace::Backtrace::force_capture().to_string();
+            for line in bt.lines() {
+                let line = line.trim();
+                if let Some(rest) = line.strip_prefix("at ") {
+                    if rest.contains("/repo/") {
+                        let mut parts = rest.rsplitn(3, ':');
+                        let _col = parts.next();
+                        let ln = parts.next().unwrap_or("0");
+                        let file = parts.next().unwrap_or(rest);
+                        loc = format!("{}:{} (raised in {})", file, ln, loc);
+                        break;
+                    }
+                }
+            }
+        }
         if !QUIET_PANICS.load(Ordering::Relaxed) {
             eprintln!("PANIC at {}: {}", loc, msg);
         }
@@ -190,6 +208,7 @@ pub fn take_last_panic() -> Option<(String, String)> {
 
 /// Signature of a panic: file (without line) + message with digits collapsed.
 pub fn panic_signature(loc: &str, msg: &str) -> String {
+    let loc = loc.split(" (raised in ").next().unwrap_or(loc);
     let file = loc.rsplit_once(':').map(|x| x.0).unwrap_or(loc);
     // keep only the path below the repository / registry root
     let file = if let Some(i) = file.find("/repo/") {
